@@ -18,6 +18,7 @@ import Wharf.Model.SafeKeeper
 import Wharf.Model.Archive
 import Wharf.Model.Heal
 import Wharf.Model.Commit
+import Wharf.Model.PatchResume
 
 open Wharf Wharf.Util
 
@@ -261,6 +262,30 @@ def doPatch (args : List String) : IO String := do
     let E : Patch.Env := { bs := parseNat bsS, oldSizes := olds.map (·.length), newSizes := (csvNats newS).toArray,
                            pool := Patch.plainPool olds, whitelist := if wlS == "*" then none else some (csvNats wlS) }
     return showOutcomeRes (Patch.patch E msgs)
+  | _ => return "bad-op"
+
+def showCkpt (c : PatchResume.Ckpt) : String :=
+  match c.mid with
+  | .rsync written => s!"{c.fileIndex}:{c.msgIndex}:R:{written}:-:-"
+  | .bsdiff target oldOffset written => s!"{c.fileIndex}:{c.msgIndex}:B:{written}:{oldOffset}:{target}"
+
+/-- `ckpts <bs> <msgfile> <newsizes csv> <nOld> (path tok)*` (the arguments of `patch` without the whitelist):
+    every point at which the patcher can hand out a checkpoint during the uninterrupted application, in order,
+    as space-separated tokens `fileIndex:msgIndex:kind:written:oldOffset:target` (kind `R` rsync, `B` bsdiff;
+    `-` for the fields an rsync checkpoint does not have; msgIndex = messages consumed counting from the first
+    SyncHeader); `err` / `panic <site>` when the application fails. -/
+def doCkpts (args : List String) : IO String := do
+  match args with
+  | bsS :: mf :: newS :: nOldS :: rest =>
+    let msgs ← readMsgs mf
+    let (oldFiles, _) ← readFiles (parseNat nOldS) rest
+    let olds := (oldFiles.map fun (_, b) => b.toList).toArray
+    let E : Patch.Env := { bs := parseNat bsS, oldSizes := olds.map (·.length), newSizes := (csvNats newS).toArray,
+                           pool := Patch.plainPool olds, whitelist := none }
+    match PatchResume.patchCk E msgs with
+    | .panic site => return s!"panic {site}"
+    | .err _ => return "err"
+    | .ok (_, cks) => return " ".intercalate (cks.map showCkpt)
   | _ => return "bad-op"
 
 def showMappings : Outcome (List (Option (Nat × Int))) → String
@@ -515,6 +540,7 @@ def dispatch (line : String) : IO String := do
   | "c12" :: args => doC12 args
   | "diffbuild" :: args => doDiffBuild args
   | "patch" :: args => doPatch args
+  | "ckpts" :: args => doCkpts args
   | "hashinfo" :: args => doHashInfo args
   | "c13" :: args => doC13 args
   | "validate" :: args => doValidate args
